@@ -9,6 +9,9 @@
            {a:"Since", u, req, ao, since, tok:[l,t,s], lim, resp:[..]}   answer from a later position (token string parsed by the server)
            {a:"Pages", u, req, ao, since, tok, k, resp:[{pages:[{rows,last,lastTok}]}]}   page-through, each page resumed from
                                                                          the last_seq STRING of the previous one
+           {a:"View", views:[{docs:[..]}]}                                 admin view after concurrent writers stopped (no model step)
+           {a:"Cont", u, req, ao, resp:[{rows}]}                           everything a continuous feed delivered while writers were
+                                                                         racing and until a generous bound after they stopped
    rows = [{seq (string), tok:[l,t,s], doc, rev, removed:[..], del}].  A per-configuration element that is identical to
    the first configuration's is logged as {eq:true}.
    Pass P: the C01 predicates of Changes.tla evaluated on the recorded rows against the recorded admin view.
@@ -81,7 +84,13 @@ PSince == /\ Ev("Since") /\ base # <<>>
 PPages == /\ Ev("Pages") /\ base # <<>>
           /\ cur' = Req("Pages") @@ [S |-> Safe(Mk(T.tok[1], T.tok[2], T.tok[3])), lim |-> T.k, pages |-> RespPages]
           /\ UNCHANGED <<vars, docsC, base>>
-PNext == Reset \/ Begin \/ PWrite \/ PBase \/ PSince \/ PPages
+PView  == /\ Ev("View")
+          /\ docsC' = [i \in 1..NCfg |-> Overlay(docsC[i], T.views[IF T.views[i].eq THEN 1 ELSE i].docs)]
+          /\ base' = <<>> /\ cur' = Idle /\ UNCHANGED vars
+PCont  == /\ Ev("Cont")
+          /\ cur' = Req("Cont") @@ [S |-> 0, lim |-> 0, resp |-> RespRows]
+          /\ UNCHANGED <<vars, docsC, base>>
+PNext == Reset \/ Begin \/ PWrite \/ PBase \/ PSince \/ PPages \/ PView \/ PCont
 PSpec == TInit /\ [][PNext]_tvars
 
 -----------------------------------------------------------------------------
@@ -103,7 +112,7 @@ CSince == PSince /\ LET ref == NoRev(RefFeed(docs, VC1, Safe(Mk(T.tok[1], T.tok[
                     \A i \in 1..NCfg : NoRev(cur'.resp[i]) = ref
 CPages == PPages /\ LET ref == NoRev(RefFeed(docs, VC1, Safe(Mk(T.tok[1], T.tok[2], T.tok[3])), 0, T.ao)) IN
                     \A i \in 1..NCfg : NoRev(Concat(cur'.pages[i])) = ref
-CNext == Reset \/ Begin \/ CWrite \/ CBase \/ CSince \/ CPages
+CNext == Reset \/ Begin \/ CWrite \/ CBase \/ CSince \/ CPages \/ PView \/ PCont
 CSpec == TInit /\ [][CNext]_tvars
 
 Progress == Mark(l)
@@ -111,7 +120,7 @@ Accept == PrintHWM
 
 -----------------------------------------------------------------------------
 (* C01 on the recorded responses.  One invariant per clause of the statement. *)
-IsReq == cur.kind # "none"
+IsReq == cur.kind \in {"Base", "Since", "Pages"}
 VC == VisChans(grants, cur.u, cur.req)
 (* configurations whose answer or documents differ from the first one's (equal ones need no second evaluation) *)
 Cfgs == {1} \cup {i \in 1..NCfg : docsC[i] # docsC[1] \/ (IF cur.kind = "Pages" THEN cur.pages[i] # cur.pages[1] ELSE cur.resp[i] # cur.resp[1])}
@@ -132,6 +141,9 @@ RPagingConsistent ==
 (* the answer does not depend on cache state *)
 RConfigIndependent ==
   IsReq => \A i \in 1..NCfg : IF cur.kind = "Pages" THEN cur.pages[i] = cur.pages[1] ELSE cur.resp[i] = cur.resp[1]
+(* a continuous request eventually delivers the current revision of every visible document without being re-issued *)
+REventually ==
+  cur.kind = "Cont" => \A i \in 1..NCfg : CompleteCur(docsC[i], VC, cur.resp[i], 0, 0, FALSE)
 (* auxiliary: the four databases hold the same documents *)
 ViewsAgree == \A i, j \in 1..Len(docsC) : docsC[i] = docsC[j]
 =============================================================================
